@@ -105,6 +105,8 @@ type w5Op struct {
 	done  bool
 	err   error
 	off   int64 // dbOffset returned
+	// read_do: binlog offset of the state the read saw, and the committed binlog offset when Do returned
+	seenDBOff, commitAtReturn int64
 	rows  []string
 	call  uint64
 	panic string
@@ -473,8 +475,10 @@ func (w *w5World) exec(op *w5Op) {
 			// (5) a reader never observes a row whose event is not in the binlog yet: at this
 			// instant (connection lock held) every visible row must be in execOrder
 			op.off = int64(len(w.execOrder))
+			op.seenDBOff = e.dbOffset
 			return cache, rows.Error()
 		})
+		op.commitAtReturn = e.commitOffset.Load()
 	case "view":
 		op.err = e.View(ctx, "test", func(conn Conn) error {
 			rows := conn.Query("test", "SELECT t FROM test_db ORDER BY id")
@@ -543,6 +547,10 @@ func (w *w5World) collect() {
 					r.Fail("C17", "reader_not_prefix", op.kind, "%s row %d is %q, binlog order has %q", op.kind, i, s, w.execOrder[i])
 					break
 				}
+			}
+			if op.kind == "read_do" && w.mode == WaitCommit && !w.ioFired && op.commitAtReturn < op.seenDBOff {
+				r.Fail("C17", "reader_sees_uncommitted", "read_do", "wait-for-commit mode: a read through Do returned the state at binlog offset %d (%d rows) while the binlog was committed only up to %d: the caller holds effects of events that are not durable in the binlog", op.seenDBOff, len(op.rows), op.commitAtReturn)
+				break
 			}
 			if op.kind == "read_do" && len(op.rows) != lim {
 				r.Fail("C17", "reader_missing_rows", op.kind, "a read through the write connection saw %d rows, %d writes were executed before it", len(op.rows), lim)
